@@ -247,6 +247,37 @@ Theorem C11_basis_rows :
 Proof. exact (conj zernike_basis_rows (conj zernike_basis_refuses zernike_basis_err)). Qed.
 Print Assumptions C11_basis_rows.
 
+(* zernike_coordinates(mask, shift=(sr, sc)): the origin is shape//2 + shift (row, column) for every array
+   size, rho^2 and the direction are measured from it, rho <= ... the largest masked distance; and the
+   default call is this one with shift = centroid - shape//2 *)
+Theorem C11_coordinates_explicit_shift :
+  (forall mask sr sc c, zernike_coordinates_shift mask sr sc = Ok c ->
+     c_origin_r c = (zQ (nr mask / 2) + sr)%Qc /\ c_origin_c c = (zQ (nc mask / 2) + sc)%Qc /\
+     (forall i j,
+        c_rho2 c i j = ((qsqr (zQ i - c_origin_r c) + qsqr (zQ j - c_origin_c c)) / c_rmax2 c)%Qc /\
+        c_dirx c i j = (- (zQ j - c_origin_c c))%Qc /\ c_diry c i j = (- (zQ i - c_origin_r c))%Qc) /\
+     (forall i j, 0 <= i < nr mask -> 0 <= j < nc mask -> mask_bool (get mask i j) = true ->
+        ((qsqr (zQ i - c_origin_r c) + qsqr (zQ j - c_origin_c c)) <= c_rmax2 c)%Qc))
+  /\ (forall mask c, zernike_coordinates mask = Ok c ->
+       exists c', zernike_coordinates_shift mask (centroid_r mask (mcount mask) - zQ (nr mask / 2))%Qc
+                                                 (centroid_c mask (mcount mask) - zQ (nc mask / 2))%Qc = Ok c'
+         /\ c_origin_r c' = c_origin_r c /\ c_origin_c c' = c_origin_c c /\ c_rmax2 c' = c_rmax2 c
+         /\ forall i j, c_rho2 c' i j = c_rho2 c i j /\ c_dirx c' i j = c_dirx c i j /\ c_diry c' i j = c_diry c i j).
+Proof. exact (conj coordinates_shift_origin coordinates_default_is_shift). Qed.
+Print Assumptions C11_coordinates_explicit_shift.
+
+(* result shapes: zernike -> mask.shape; zernike_basis -> (rows, nr, nc), or (rows, nr*nc) when vectorize
+   (a scalar mode is one row): vectorize regroups, it neither drops nor adds samples or rows *)
+Theorem C11_result_shape :
+  forall basis nmodes nr nc vec,
+  fold_right Z.mul 1 (zernike_result_shape basis nmodes nr nc vec) = (if basis then nmodes else 1) * (nr * nc)
+  /\ (basis = true -> hd 0 (zernike_result_shape basis nmodes nr nc vec) = nmodes)
+  /\ zernike_result_shape false nmodes nr nc vec = [nr; nc]
+  /\ zernike_result_shape true nmodes nr nc false = [nmodes; nr; nc]
+  /\ zernike_result_shape true nmodes nr nc true = [nmodes; nr * nc].
+Proof. exact result_shape_spec. Qed.
+Print Assumptions C11_result_shape.
+
 (* (f) |Z| <= 1 without normalisation is NOT proved (a Jacobi-polynomial bound): numeric test in
    harness/props/c11.py:extra, labelled as a test. *)
 
@@ -270,5 +301,8 @@ Example C11_entry_nonvacuous :
   /\ (match zernike_default mask 2 true with Ok d => dm_norm2 d = 4 /\ dm_odd d = true | Err _ => False end)
   /\ zernike_branch ArgRhoOnly = Err ValueError
   /\ (match zernike_basis_default mask [1; 4; 7] false with Ok ds => length ds = 3%nat | Err _ => False end)
-  /\ zernike_basis_default mask [2; 0] true = Err ValueError.
+  /\ zernike_basis_default mask [2; 0] true = Err ValueError
+  /\ zernike_result_shape true 3 5 7 true = [3; 35]
+  /\ (match zernike_coordinates_shift mask (Q2Qc (1 # 2)) (Q2Qc (-3 # 4)) with
+      | Ok c => c_origin_r c = Q2Qc (3 # 2) /\ c_origin_c c = Q2Qc (5 # 4) | Err _ => False end).
 Proof. repeat split; try (vm_compute; reflexivity); apply Qc_is_canon; vm_compute; reflexivity. Qed.
